@@ -161,6 +161,26 @@ static void m6(void) {
     check_managed_all(2);
     vs_outcome("first join_all %s", rc1 == AWS_OP_SUCCESS ? "completed" : "timed out");
 }
+/* M8: the library's second life.  A join-all with a timeout gives up while managed thread A is still inside its function
+ * (the documented way library clean-up returns early), thread management is initialised again (what a second
+ * aws_common_library_init does), and only then is A let go: the next join-all, without timeout, must still wait for A and
+ * join it.  A is held back until after the re-initialisation on purpose: a thread that parks itself between the time-out
+ * and the re-initialisation is dropped from the pending list by the unchanged library as well, which is use the
+ * documentation does not cover and the property does not speak about (added after a seeded change that also reset the
+ * outstanding count on re-initialisation) */
+static void m8(void) {
+    setup();
+    aws_thread_set_managed_join_timeout_ns(1000000);
+    pthread_mutex_lock(&hm);
+    m_launch(0);
+    int rc1 = aws_thread_join_all_managed();
+    VS_CHECK(rc1 == AWS_OP_ERR, "join-all-result", "join_all returned success while the only managed thread is blocked inside its function");
+    aws_thread_set_managed_join_timeout_ns(0);
+    aws_thread_initialize_thread_management();
+    pthread_mutex_unlock(&hm);
+    VS_CHECK(aws_thread_join_all_managed() == AWS_OP_SUCCESS, "join-all-result", "second join_all (no timeout) failed");
+    check_managed_all(1);
+}
 /* M7: two threads are inside join-all at the same time (an explicit call racing library clean-up): both must return */
 static void *m7_joiner(void *a) {
     (void)a;
@@ -219,10 +239,41 @@ static void j2(void) {
     VS_CHECK(ga.live_blocks == 0, "leak", "%llu allocation(s) still live", (unsigned long long)ga.live_blocks);
 }
 
+/* J3: a join that legitimately fails (the thread joins its own handle: EDEADLK) must not change what the owner's
+ * later join waits for (added after a seeded change that marked the handle JOIN_COMPLETED before the error checks) */
+static int j3_selfjoin_rc, j3_selfjoin_err;
+static void body_selfjoin(void *arg) {
+    pthread_mutex_lock(&hm); /* the owner holds hm until aws_thread_launch has filled the handle in */
+    pthread_mutex_unlock(&hm);
+    j3_selfjoin_rc = aws_thread_join(&thr[0]);
+    j3_selfjoin_err = j3_selfjoin_rc ? aws_last_error() : 0;
+    body(arg);
+}
+static void j3(void) {
+    setup();
+    n_atexit[0] = 1;
+    j3_selfjoin_rc = 12345;
+    pthread_mutex_lock(&hm);
+    if (aws_thread_launch(&thr[0], body_selfjoin, &targs[0], NULL)) vs_fail("launch", "launch failed");
+    pthread_mutex_unlock(&hm);
+    pthread_mutex_lock(&hm); /* schedule points at which the thread may get as far as its self-join first */
+    pthread_mutex_unlock(&hm);
+    pthread_mutex_lock(&hm);
+    pthread_mutex_unlock(&hm);
+    VS_CHECK(aws_thread_join(&thr[0]) == AWS_OP_SUCCESS, "join-result", "join failed");
+    VS_CHECK(vs_threads_unfinished() == 0, "join-early", "join returned while the thread is still running (after the thread's own refused self-join)");
+    VS_CHECK(j3_selfjoin_rc == AWS_OP_ERR && j3_selfjoin_err == AWS_ERROR_THREAD_DEADLOCK_DETECTED, "self-join-result", "self-join returned %d / error %d", j3_selfjoin_rc, j3_selfjoin_err);
+    check_thread(0, 1);
+    VS_CHECK(vs_thread_was_joined(1), "managed-not-joined", "the thread was never pthread_join()ed");
+    aws_thread_clean_up(&thr[0]);
+    VS_CHECK(ga.live_blocks == 0, "leak", "%llu allocation(s) still live after join", (unsigned long long)ga.live_blocks);
+}
+
 int main(int argc, char **argv) {
     v_init(argc, argv);
     aws_common_library_init(aws_default_allocator());
     if (v_thorough()) j1_n = 3;
+    vs_spin_clock_step_ns = 250000; /* M8: join-all with a timeout busy-waits on the clock while one thread is outstanding */
     struct vsx_scenario sc[] = {
         {.name = "M1-two-managed", .run = m1, .bound_quick = 3, .bound_thorough = 4},
         {.name = "M2-three-managed", .run = m2, .bound_quick = 2, .bound_thorough = 3},
@@ -230,8 +281,10 @@ int main(int argc, char **argv) {
         {.name = "M4-join-all-while-running", .run = m4, .bound_quick = 3, .bound_thorough = 5},
         {.name = "M5-managed-cpu-pinning-refused", .run = m5, .bound_quick = 2, .bound_thorough = 3},
         {.name = "M6-join-timeout-then-join-all", .run = m6, .bound_quick = 2, .bound_thorough = 3},
+        {.name = "M8-timeout-reinit-then-join-all", .run = m8, .bound_quick = 3, .bound_thorough = 4},
         {.name = "M7-two-join-all-callers", .run = m7, .bound_quick = 2, .bound_thorough = 3},
         {.name = "J1-joinable-at-exit", .run = j1, .bound_quick = 3, .bound_thorough = 5},
+        {.name = "J3-refused-self-join-then-join", .run = j3, .bound_quick = 3, .bound_thorough = 5},
         {.name = "J2-managed-at-exit-plus-joinable", .run = j2, .bound_quick = 3, .bound_thorough = 4},
     };
     return vsx_main(sc, (int)(sizeof(sc) / sizeof(sc[0])));
